@@ -45,6 +45,8 @@ type interpreter struct {
 	sizes              types.Sizes
 	x                  *Explorer
 	spawned            []*thunk
+	onBlock            value // harness callback run while a receive would block
+	inOnBlock          bool
 	timers             []*vtimer
 	depth              int
 	side               map[string]value // engine side tables (per path)
@@ -81,6 +83,24 @@ func (fr *frame) set(key ssa.Value, v value) {
 	idx := fr.slots[key]
 	fr.env[idx] = v
 	fr.isset[idx] = true
+}
+
+// awaitRecv gives the other actors a chance to run (the harness's OnBlock
+// callback) while a receive would block; it returns when the channel is
+// ready or the callback reports no progress.
+func (i *interpreter) awaitRecv(fr *frame, x value) {
+	ch, _ := x.(*vchan)
+	if ch == nil || i.onBlock == nil {
+		return
+	}
+	for k := 0; k < 64 && len(ch.buf) == 0 && !ch.closed && !i.inOnBlock; k++ {
+		i.inOnBlock = true
+		progress := call(i, fr, token.NoPos, i.onBlock, nil)
+		i.inOnBlock = false
+		if b, ok := progress.(bool); !ok || !b {
+			return
+		}
+	}
 }
 
 func (fr *frame) get(key ssa.Value) value {
@@ -188,6 +208,9 @@ func visitInstr(fr *frame, instr ssa.Instruction) continuation {
 		// no-op
 
 	case *ssa.UnOp:
+		if instr.Op == token.ARROW {
+			fr.i.awaitRecv(fr, fr.get(instr.X))
+		}
 		fr.set(instr, unop(instr, fr.get(instr.X)))
 
 	case *ssa.BinOp:
